@@ -204,6 +204,33 @@ CHECKS = {
          "exhaustive within the bound only",
          "invariant assertion at a hook (slot table + register writes at "
          "the simulated terminal) after every operation", "4 C20"),
+ "C16": ("exploration",
+         "The real Terminal.sdo_write / sdo_read run over the real send "
+         "loop against an ESC mailbox model and an ETG.1000.6 SDO server "
+         "(expedited, normal, segmented, complete access, toggle and size "
+         "checking) for six mailbox sizes and every value length around the "
+         "segmentation boundaries, with response latencies and unrelated "
+         "mail queued first; the server's object store, its protocol-error "
+         "log (toggle bits, message lengths vs mailbox size) and the "
+         "returned bytes are compared with the value.",
+         "the SDO server model is the conformance reference; at the pinned "
+         "tree only expedited transfers and single-mailbox uploads work, "
+         "the rest are known findings, so regressions inside the broken "
+         "paths cannot be seen",
+         "runtime monitoring against a protocol-conformant peer model "
+         "(server-side protocol checker + value oracle)", "4 C16"),
+ "C17": ("exploration",
+         "Seeded random well-formed SII images are served by an EEPROM "
+         "interface model (4- or 8-byte reads, random busy polls); the real "
+         "read_eeprom / parse_sync_managers / parse_pdos (EEPROM source, and "
+         "SDO source through the SDO server model for terminals with "
+         "mailboxes) are compared with the generating image: identity "
+         "words, every category keyed by type, every sync-manager area, "
+         "every mapped entry's sync manager, byte offset and bit / format.",
+         "well-formed images only (byte entries byte-aligned, distinct "
+         "category types)",
+         "runtime differential monitoring against the generating image",
+         "4 C17"),
 }
 
 NOT_YET = "check not built yet in this round (design in DESIGN.md section 4)"
